@@ -462,16 +462,27 @@ func (x *Exec) merge2(a, c *State) *State {
 		}
 	}
 	n.globals = map[string]*Value{}
+	initial := func(key string, like *Value) *Value {
+		// value a global has in a state that never touched it
+		if strings.HasPrefix(key, "const.") {
+			return like
+		}
+		v := &Value{T: like.T, L: map[string]*Term{}}
+		for p, t := range like.L {
+			v.L[p] = x.b.Var(join("G0."+key, p), t.Sort)
+		}
+		return v
+	}
 	for k2, va := range a.globals {
 		if vc, ok := c.globals[k2]; ok {
 			n.globals[k2] = x.mergeV(ca, va, vc)
 		} else {
-			n.globals[k2] = va
+			n.globals[k2] = x.mergeV(ca, va, initial(k2, va))
 		}
 	}
 	for k2, vc := range c.globals {
-		if _, ok := n.globals[k2]; !ok {
-			n.globals[k2] = vc
+		if _, ok := a.globals[k2]; !ok {
+			n.globals[k2] = x.mergeV(ca, initial(k2, vc), vc)
 		}
 	}
 	n.alloc = x.b.Ite(ca, a.alloc, c.alloc)
@@ -1248,7 +1259,13 @@ func (x *Exec) assignedIn(n ast.Node) *frameInfo {
 		case *ast.SelectorExpr:
 			if t := x.eng.info.TypeOf(e.X); t != nil {
 				if p, isPtr := t.Underlying().(*types.Pointer); isPtr {
-					fi.heapKeys[structName(p.Elem())+"."+e.Sel.Name] = true
+					sn := structName(p.Elem())
+					fi.heapKeys[sn+"."+e.Sel.Name] = true
+					for _, g := range x.eng.cf.OnWrite {
+						if g.matches(sn, e.Sel.Name) {
+							fi.heapKeys["global.ghost."+g.Ghost] = true
+						}
+					}
 					return
 				}
 			}
@@ -1352,6 +1369,16 @@ func (x *Exec) callFrame(c *ast.CallExpr, fi *frameInfo) {
 			}
 		}
 		if ct := x.eng.cf.Contracts[funcQual(callee)]; ct != nil && !ct.Inline {
+			if !ct.Trusted {
+				for name := range x.eng.cf.Ghosts {
+					if ct.modifiesGhost(name) {
+						fi.heapKeys["global.ghost."+name] = true
+					}
+				}
+			}
+			if len(ct.Modifies) == 0 && len(ct.Effects) == 0 && !ct.Pure && !ct.Trusted {
+				fi.heapAll = true
+			}
 			for _, m := range ct.Modifies {
 				if m == "*" || m == "heap" {
 					fi.heapAll = true
@@ -1459,6 +1486,11 @@ func (x *Exec) havocLoopTargets(st *State, spec *LoopSpec, body ast.Node, extra 
 	}
 	if fi.heapAll {
 		x.havocHeap(st, "loop", nil)
+		for k, g := range st.globals {
+			if strings.HasPrefix(k, "ghost.") && fi.matches("global."+k) {
+				st.globals[k] = x.freshValue(g.T, "g."+k)
+			}
+		}
 		return
 	}
 	if len(fi.heapKeys) > 0 {
@@ -1473,6 +1505,9 @@ func (x *Exec) havocLoopTargets(st *State, spec *LoopSpec, body ast.Node, extra 
 				st.globals[k] = x.freshValue(g.T, "g."+k)
 			}
 		}
+	}
+	if fi.heapAll {
+		// unknown callees may also change ghost state through verified helpers
 	}
 	if fi.heapAll || len(fi.heapKeys) > 0 {
 		x.havocId++
@@ -1589,6 +1624,15 @@ func (x *Exec) runLoopHavoc(st *State, lp *loopParts, spec *LoopSpec, ord int) *
 	}
 	evalInv := func(s *State, cl *Clause) *Term {
 		return x.evalClause(s, cl, invPos)
+	}
+	// contract-level invariants apply to every loop of the function
+	if c := x.eng.cf.Contracts[fr.qual]; c != nil && len(c.LoopInvs) > 0 {
+		ns := &LoopSpec{}
+		if spec != nil {
+			*ns = *spec
+		}
+		ns.Invariants = append(append([]*Clause{}, c.LoopInvs...), ns.Invariants...)
+		spec = ns
 	}
 	// 1. invariant on entry
 	if spec != nil {
